@@ -15,6 +15,8 @@ type inprocStats struct {
 	sigSeen                                map[string]int
 }
 
+var sampledOnce, disagreeSampled bool
+
 var modes = []struct {
 	name   string
 	weight int
@@ -251,6 +253,9 @@ func inprocWorker(c *vf.Ctx, stream uint64) {
 	nTables := c.Pick(70, 900)
 	nConds := c.Pick(24, 40)
 	st := &inprocStats{}
+	if stream == 0 {
+		designCases(c, st)
+	}
 	for ti := 0; ti < nTables; ti++ {
 		mode := pickMode(r)
 		t := genTable(r, mode)
@@ -470,7 +475,8 @@ func runCond(c *vf.Ctx, st *inprocStats, ix *indexed, cond *Node, tb TimeBounds,
 			} else if feat.hasAnd {
 				shape += ",AND"
 			}
-			if c.DistinctCount("row-filter-disagreement-shape") < 5 {
+			if !disagreeSampled && strings.HasPrefix(id, "w3/") {
+				disagreeSampled = true
 				c.Sample(map[string]any{"non_gating_row_filter_disagreement": cond.String(), "time": tb.String(),
 					"engine_accepts_rows": len(accepted), "evaluator_accepts_rows": len(mine), "both": len(gated), "shape": shape})
 			}
@@ -484,8 +490,8 @@ judged:
 	if judge(c, st, ix, cond, tb, settings, accepted, needed) && len(needed) > 0 {
 		// non-trivial: the index really pruned something while at least one fragment had to stay
 		c.Nontrivial(id)
-		if c.DistinctCount("sampled") < 4 && len(needed) < ix.fragCount {
-			note(c, "sampled", id)
+		if !sampledOnce && len(needed) < ix.fragCount && (strings.HasPrefix(id, "w0/") || strings.HasPrefix(id, "w1/") || strings.HasPrefix(id, "w2/") || strings.HasPrefix(id, "design/l0/c1")) {
+			sampledOnce = true
 			c.Sample(map[string]any{"part": "inproc", "mode": t.Mode, "layout": ix.layout, "keys": pkSchemaString(t), "rows": len(t.Rows),
 				"condition": cond.String(), "time": tb.String(), "fragments": ix.fragCount, "fragments_with_accepted_rows": len(needed)})
 		}
@@ -501,4 +507,41 @@ func pkSchemaString(t *Table) string {
 		p = append(p, "time")
 	}
 	return strings.Join(p, ",")
+}
+
+// designCases: the two shapes DESIGN.md names (!= combined with a second key column) and the
+// shape that shares their cause, on a fixed table, under every layout. On the unchanged
+// tree (before the fix of checkRangeRightBound) each of them pruned fragments with matches.
+func designCases(c *vf.Ctx, st *inprocStats) {
+	t := Table{Mode: "plain", Cols: []ColSpec{{Name: "k0", Type: tString, Key: true}, {Name: "k1", Type: tInt, Key: true},
+		{Name: "v0", Type: tInt}, {Name: "v1", Type: tString}}}
+	i := 0
+	for _, a := range []string{"A", "B", "C", "D", "E", "F"} {
+		for b := int64(0); b < 6; b++ {
+			for k := 0; k < 3; k++ {
+				t.Rows = append(t.Rows, Row{V: []Val{{S: a}, {I: b}, {I: int64(k)}, {S: "x"}}, T: int64(i)})
+				i++
+			}
+		}
+	}
+	s := func(col, op, v string) *Node { return &Node{Op: op, Col: col, Lit: &Lit{Kind: tString, S: v}} }
+	n := func(col, op string, v int64) *Node { return &Node{Op: op, Col: col, Lit: &Lit{Kind: tInt, I: v}} }
+	conds := []*Node{
+		{Op: "OR", L: s("k0", "!=", "D"), R: n("k1", "=", 1)},
+		{Op: "AND", L: s("k0", "=", "C"), R: n("k1", "!=", 1)},
+		{Op: "AND", L: s("k0", "=", "C"), R: n("k1", ">=", 2)},
+	}
+	for li, l := range []Layout{{Kind: "pkfetch"}, {Kind: "build-fixed", FragSize: 8}, {Kind: "build-fixed", FragSize: 5}, {Kind: "build-var", FragSizes: []int{7, 13, 1, 17, 17, 17, 17, 9, 10}}} {
+		ix, err := buildIndex(&t, l)
+		if err != nil {
+			c.Broken("design case: %v", err)
+			return
+		}
+		noteTable(c, ix)
+		for ci, cond := range conds {
+			c.LogInput(Case{Part: "inproc", Table: t, Layout: l, Cond: cond})
+			runCond(c, st, ix, cond, TimeBounds{}, settingsFor(l), fmt.Sprintf("design/l%d/c%d", li, ci))
+			note(c, "design-shapes-run", cond.String())
+		}
+	}
 }
